@@ -11,7 +11,21 @@
 //!   auto_commit_threshold; an auto-commit removes a prefix only (cursor shifted, saturating).
 use crate::step::*;
 use chewing::editor::keyboard::KeyCode;
+use std::cell::Cell;
 use vharness::Out;
+
+thread_local! {
+    /// (keys typed with the buffer >= 2 over the limit, easy-symbol expansions typed at limit / limit-1,
+    ///  auto-commits that removed >= 2 symbols at once)
+    static STATS: Cell<(u64, u64, u64)> = const { Cell::new((0, 0, 0)) };
+}
+
+pub fn finish(out: &mut Out) {
+    let (b, a, multi) = STATS.with(|s| s.get());
+    out.stat("c05_keys_with_buffer_2_or_more_over_limit", b);
+    out.stat("c05_two_char_expansions_at_or_next_to_limit", a);
+    out.stat("c05_auto_commits_removing_2_or_more", multi);
+}
 
 fn opt(snap: &str, i: usize) -> usize {
     sections(snap)[4].split(' ').nth(i).unwrap().parse().unwrap()
@@ -47,6 +61,16 @@ pub fn check(out: &mut Out, st: &Step) {
     let thr = opt(pre, 6);
     let state0 = sections(pre)[0].as_bytes()[0];
     let state1 = sections(post)[0].as_bytes()[0];
+    {
+        let over2 = s0.len() >= thr + 2;
+        let expands = state0 == b'E' && opt(pre, 0) == 1 && opt(pre, 8) == 0 && !ev.modifiers.numlock
+            && (ev.unicode == 'a' || ev.unicode == 'Z') && s0.len() <= thr && s0.len() + 1 >= thr;
+        let multi = st.ret == "C" && state1 == b'E' && !s0.is_empty() && s1.len() + 2 <= s0.len() + if expands { 2 } else { 0 } && ev.code != KeyCode::Enter;
+        STATS.with(|s| {
+            let (b, a, m) = s.get();
+            s.set((b + over2 as u64, a + expands as u64, m + multi as u64));
+        });
+    }
     if state1 == b'E' && (st.ret == "A" || st.ret == "C") && s1.len() > thr {
         out.oracle_fail("C05", "new", &format!("buffer length {} > auto_commit_threshold {} after a handled key: {}", s1.len(), thr, st.hist()));
     }
